@@ -25,14 +25,14 @@ REFUSALS = (AssertionError, KeyError, ValueError, IndexError)
 RULE = (
     "Hypothesis draws an initial construction (list / dict incl. the 'key grouped elsewhere' form / "
     "ndarray) and 1-25 operations (group, group_list, append, update, remove, pop, sort, sort_by, "
-    "replace_group_leader, copy, dict round trip, invalid variants) with selectors resolved against "
+    "replace_group_leader, copy, dict round trip, group-splitting update, invalid variants) with selectors resolved against "
     "the current state; after every step list/content/get/get_group/values/contains are compared with "
     "a reference model and structural invariants are checked. Non-trivial: the sequence performed "
     ">=1 effective merge of two distinct leaders and >=3 effective operations. Distinct = distinct "
     "case JSON. The exhaustive part enumerates every valid operation instance from every state "
     "reachable within the depth bound on the 5-value universe {'a','',0,2.5,'__NAN__'}."
 )
-BOUNDS = {"universe": len(UNIVERSE), "max_ops": 25, "exhaustive_universe": 5, "exhaustive_depth": {"quick": 4, "thorough": 5}}
+BOUNDS = {"universe": len(UNIVERSE), "max_ops": 25, "exhaustive_universe": 5, "exhaustive_depth": {"quick": 3, "thorough": 5}}
 ASSUMPTIONS = [
     "valid operations only as documented/used by the package: group on leaders, append of a value not "
     "contained, update with member lists containing their key and disjoint from other groups",
@@ -94,6 +94,7 @@ def strategy(tier):
         st.tuples(st.just("append"), sel),
         st.tuples(st.just("append"), sel),
         st.tuples(st.just("update"), st.lists(st.tuples(st.integers(-3, 11), st.lists(sel, max_size=2)), min_size=1, max_size=3)),
+        st.tuples(st.just("split"), sel, st.integers(1, 62)),
         st.tuples(st.just("remove"), sel),
         st.tuples(st.just("pop"), sel),
         st.tuples(st.just("sort")),
@@ -283,6 +284,26 @@ def apply_op(gl, model, op, univ):
         res = observe(gl.update, {k: list(m) for k, m in pairs})
         model.update(pairs)
         return done(res, f"update({pairs!r})")
+    if name == "split_at":
+        leader = leaders[op[1] % n]
+        if len(model.members(leader)) < 2:
+            return skip
+        return apply_op(gl, model, ["split", [l for l in leaders if len(model.members(l)) >= 2].index(leader), op[2]], univ)
+    if name == "split":
+        # update() with a dict that re-partitions one group: the leader keeps part of its members, one of
+        # its former members becomes the key (hence a leader) of the rest
+        big = [l for l in leaders if len(model.members(l)) >= 2]
+        if not big:
+            return skip
+        leader = big[op[1] % len(big)]
+        members = model.members(leader)
+        others = [m for m in members if not same(m, leader)]
+        moved = [m for i, m in enumerate(others) if (op[2] >> i) & 1] or [others[0]]
+        kept = [m for m in members if not any(same(m, x) for x in moved)]
+        pairs = [(leader, kept), (moved[0], moved)]
+        res = observe(gl.update, {k: list(m) for k, m in pairs})
+        model.update(pairs)
+        return done(res, f"update({pairs!r}) [split]")
     if name == "remove":
         if n == 0:
             return skip
@@ -460,6 +481,9 @@ def _instances(model, univ):
             ops.append(["replace", i, m])
         if free:
             ops.append(["update", [[i, [0]]]])
+        n_others = len(model.members(leaders[i])) - 1
+        for mask in range(1, 2 ** min(n_others, 2)):
+            ops.append(["split_at", i, mask])
     if free:
         ops.append(["update", [[-1, [0] if len(free) > 1 else []]]])
     ops.append(["sort"])
